@@ -248,7 +248,7 @@ func main() {
 	// exhaustive small scope: every normal-form expression with <= N nodes over {a, "s"}
 	N := 4
 	if f.Tier == "thorough" {
-		N = 5
+		N = 6
 	}
 	leaves := []*tf.E{{K: tf.KIdent, Text: "a"}, {K: tf.KLit, Text: `"s"`, Tok: uint(token.STRING)}}
 	cnt := 0
